@@ -129,9 +129,21 @@ package hh
 //@   at after segment.flush#1: ghost flushed = callresult == nil
 //@   call File.Close#1 requires accepted_blocks_reach_the_file_first: flushed
 //@   ensures accepted_blocks_reach_the_file: result == nil ==> flushed
+// flush writes the buffered blocks out. currentSize is the length of the block the reader is positioned on
+// (set by current / advance, used by advance to compute the next position): a flush may only set it when there is
+// no such block yet (the reader was at the end), never replace it with the length of a block that was just
+// appended behind it.
 //@ func (*segment).flush
-//@   assumed
+//@   props C04
+//@   nosafety
 //@   modifies segment.all
+//@   ensures the_length_of_the_block_being_read_is_kept: old(l.currentSize) != 0 ==> l.currentSize == old(l.currentSize)
+//@ func (*segment).seekEnd
+//@   assumed
+//@   modifies nothing
+//@ func (*segment).writeBytes
+//@   assumed
+//@   modifies nothing
 //@ func (*segment).lastModified
 //@   assumed
 //@   modifies nothing
